@@ -189,4 +189,18 @@ more("C16","A nonce-carrying and a plain JWK value of every key type must come b
 more("C17","Documents with also-known-as URIs that a URL library would print differently.")
 more("C18","Ed25519 keys in JWK form whose base58 text begins with z, zz and 1, as 2018 and 2020 keys.")
 more("C19","Signatures shaped like a DER SEQUENCE of two INTEGERs, whole and cut at every structural boundary.")
-
+# round 11
+more("C02","Every genuine operation under 12 pairs of algorithm lists (the library's v1.0 parameters, none listed, only-A, all-but-A): an algorithm that is not listed is not allowed, whatever curves are.")
+more("C03","Origins, types and member names with a backslash as the only character to escape, beside the control character its two-character escape denotes.")
+more("C04","Nonce sizes 1, 8, 12, 16, 24, 32, 33, 48, 64 x every first byte.")
+more("C06","Go strings as models: a string is a JSON string value and never validates as the document whose text it spells.")
+more("C07","Every extra protected header also with the values null, empty string, 0, false, empty list, empty object (C02 likewise, re-signed).")
+more("C08","A Bls12381G2Key2020 key (EC JWK without y) in the opaque documents.")
+more("C09","MaxOperationTimeDelta of 9223372036, 9223372037 and 10^10 seconds (thorough: 2^40).")
+more("C10","A service added under a key's id and a key under a service's id; a key whose JWK has further members (C12: the caller's patch must keep them).")
+more("C11","Paths /publicKey~10, /service~10~1serviceEndpoint and /publicKey~1 in the from/path alphabet.")
+more("C13","Every ordered purpose list of up to 3 entries over the allowed purposes plus a bad and a repeated one.")
+more("C14","Hostless endpoint URIs (dweb:, file:///, unix:, urn:, did:, mailto:) singly and in lists.")
+more("C15","Signature halves respelled within the fixed width (s+N, s+2N, r+N, both, N-s) for a key made to measure on all four curves; keys whose x and y both begin with a zero byte.")
+more("C16","Per curve a searched key whose x and y both begin with a zero byte (cmd/lzsearch).")
+more("C20","The stateless scenario applies create + deactivate and hands the applier's model to the shared generic and DID transformers as it is.")
